@@ -27,3 +27,16 @@ Value -> Value:
 ;
 
 Member -> Member: key=id ':' Value ;
+
+%%
+
+{{define "onBeforeLexer"}}
+// imports from several modules, several symbols each
+const zzA = "./util/strings".trimAll("./util/strings".padLeft("x", 3));
+const zzB: "./model/node".Node = new "./model/node".Leaf("./model/kinds".Kind.Ident, "./model/kinds".defaultFlags);
+const zzC = "../shared/log".debug("./util/strings".join(["a", "b"]), "../shared/log".Level.Info);
+{{end}}
+
+{{define "onAfterLexer"}}
+export function zzHelper(n: "./model/node".Node): "./model/kinds".Kind { return "./model/node".kindOf(n); }
+{{end}}
